@@ -157,6 +157,14 @@ func zeroOf(ty types.Type) *T {
 func mkbin(op string, a, b *T, ty types.Type) *T {
 	switch op {
 	case "+":
+		if ty != nil {
+			if bt, ok := ty.Underlying().(*types.Basic); ok && bt.Info()&types.IsString != 0 {
+				if a.Op == "str" && b.Op == "str" {
+					return &T{Op: "str", S: a.S + b.S, Ty: ty}
+				}
+				return &T{Op: "cat", A: []*T{a, b}, Ty: ty} // string concatenation is not commutative
+			}
+		}
 		return mkadd([]*T{a, b}, ty)
 	case "*":
 		args := []*T{a, b}
